@@ -489,8 +489,12 @@ def asraggedarray(path, arrayiterable, dtype=None, metadata=None,
                          f'{supportedindextypes}')
     if not hasattr(arrayiterable, 'next'):
         arrayiterable = (a for a in arrayiterable)
+    try:
+        firstarray = np.asarray(next(arrayiterable), dtype=dtype)
+    except StopIteration:
+        raise ValueError("'arrayiterable' is empty; use `create_raggedarray` "
+                         "to create a ragged array without subarrays")
     bd = create_datadir(path=path, overwrite=overwrite)
-    firstarray = np.asarray(next(arrayiterable), dtype=dtype)
     dtype = firstarray.dtype
     valuespath = bd.path.joinpath(RaggedArray._valuesdirname)
     indicespath = bd.path.joinpath(RaggedArray._indicesdirname)
